@@ -9,6 +9,9 @@ var (
 
 func MkdirAll(path string, perm os.FileMode) error {
 	vhook.AtID("os.mkdirall", path)
+	if err := vhook.OpFault("os.mkdirall", path); err != nil {
+		return err
+	}
 	return os.MkdirAll(path, perm)
 }
 
@@ -18,6 +21,9 @@ func ReadDir(name string) ([]os.DirEntry, error) {
 
 func Create(name string) (File, error) {
 	vhook.AtID("os.create", name)
+	if err := vhook.OpFault("os.create", name); err != nil {
+		return File{}, err
+	}
 	f, err := os.Create(name)
 	return File{f}, err
 }
